@@ -122,6 +122,15 @@ int main(void) {
             char* kind = strtok(NULL, " "); int l = atoi(strtok(NULL, " "));
             size_t r = !strcmp(kind, "cstream") ? ZSTD_estimateCStreamSize(l) : ZSTD_estimateCCtxSize(l);
             if (ZSTD_isError(r)) printf("err %s\n", zv_errclass(r)); else printf("%zu\n", r);
+        } else if (!strcmp(op, "rep")) {
+            /* rep <r0> <r1> <r2> <raw> <ll0> : ZSTD_finalizeOffBase + ZSTD_updateRep */
+            U32 rep[3], raw, ll0, ob; rep[0] = (U32)strtoul(strtok(NULL, " "), NULL, 10); rep[1] = (U32)strtoul(strtok(NULL, " "), NULL, 10); rep[2] = (U32)strtoul(strtok(NULL, " "), NULL, 10);
+            raw = (U32)strtoul(strtok(NULL, " "), NULL, 10); ll0 = (U32)atoi(strtok(NULL, " "));
+            ob = ZSTD_finalizeOffBase(raw, rep, ll0); ZSTD_updateRep(rep, ob, ll0);
+            printf("%u %u %u %u\n", ob, rep[0], rep[1], rep[2]);
+        } else if (!strcmp(op, "codes")) {
+            U32 ll = (U32)strtoul(strtok(NULL, " "), NULL, 10), ml = (U32)strtoul(strtok(NULL, " "), NULL, 10);
+            printf("%u %u\n", ZSTD_LLcode(ll), ZSTD_MLcode(ml));
         } else printf("bad-op\n");
         fflush(stdout);
     }
